@@ -1,5 +1,5 @@
 #!/bin/sh
-# usage: tools/try_seed.sh <patch.diff> <PID> [<PID>...]
+# usage: [LANE=<suffix>] tools/try_seed.sh <patch.diff> <PID> [<PID>...]   (LANE: separate scratch worktree/cache, for parallel trials)
 # Runs the given checks (quick tier) against a scratch worktree of /repo's HEAD
 # with the seeded change applied, fully isolated from /repo and from the live
 # harness sources: the worktree's hooks are pointed at a private copy of
@@ -8,20 +8,20 @@
 #  git -C /repo checkout -- . )
 patch="$1"; shift
 tag=$(echo "$patch" | sed 's#/tmp/seeded/##; s#/patch.diff##; s#/#_#g')
-wt=/tmp/wt-seed
-kani_copy=/tmp/kani-seed
+wt=/tmp/wt-seed$LANE
+kani_copy=/tmp/kani-seed$LANE
 head=$(git -C /repo rev-parse HEAD)
 if [ ! -d $wt ]; then git -C /repo worktree add -q --detach $wt "$head" || exit 2; fi
 git -C $wt checkout -q -- . && git -C $wt checkout -q --detach "$head" || exit 2
 rm -rf $kani_copy && cp -r /verif/kani $kani_copy
-grep -rl '"/verif/kani/' $wt --include=*.rs | xargs sed -i 's#"/verif/kani/#"/tmp/kani-seed/#'
+grep -rl '"/verif/kani/' $wt --include=*.rs | xargs sed -i 's#"/verif/kani/#"'$kani_copy'/#'
 ( cd $wt && git apply "$patch" ) || { echo "patch does not apply"; exit 2; }
 cd /verif
 for pid in "$@"; do
   out=/verif/.cache/seedlogs/$tag-$pid.out
   mkdir -p /verif/.cache/seedlogs
-  VERIF_REPO=$wt VERIF_KANI_SRC=$kani_copy VERIF_CACHE=/verif/.cache/seed \
-  VERIF_EVIDENCE_DIR=/verif/.cache/seed/evidence VERIF_REPLAY_DIR=/verif/.cache/seed/replay \
+  VERIF_REPO=$wt VERIF_KANI_SRC=$kani_copy VERIF_CACHE=/verif/.cache/seed$LANE \
+  VERIF_EVIDENCE_DIR=/verif/.cache/seed$LANE/evidence VERIF_REPLAY_DIR=/verif/.cache/seed$LANE/replay \
     ./check "$pid" > $out 2>&1
   rc=$?
   echo "== $tag $pid exit=$rc"
